@@ -104,7 +104,10 @@ def bar_plan(draw, max_bars=6, allow_default_first=True, min_bars=1, ppqn=24, ts
         if b > 0 and draw(st.integers(0, 2)) == 0:
             extra = [s for s in [(2, 8), (3, 8), (16, 8), (4, 4)] if s in sigs] or sigs
             if len(set(sigs)) > 1:
-                cur = draw(st.one_of(st.sampled_from(sigs), st.sampled_from(extra)).filter(lambda s, c=cur: s != c))
+                # a new value, or a return to a signature that was in force earlier (A, B, A)
+                earlier = [tuple(b[2]) for b in bars if tuple(b[2]) != tuple(cur)] or sigs
+                cur = draw(st.one_of(st.sampled_from(sigs), st.sampled_from(extra), st.sampled_from(earlier))
+                           .filter(lambda s, c=cur: tuple(s) != tuple(c)))
             events.append(["ts", t, cur[0], cur[1]])
         length = 4 * ppqn * cur[0] // cur[1]
         bars.append([t, length, list(cur)])
@@ -131,7 +134,9 @@ def piece(draw, cfg, max_bars=6, max_notes=10, allow_crossing=True, noise=True, 
     pitch_pool = list(range(lo, hi + 1))
     # the signature changes either all sit on one track or are spread over the tracks (tokenise takes them from anywhere)
     ts_spread = spread and nt > 1 and draw(st.integers(0, 2)) == 0
-    ts_owner = [draw(st.integers(0, nt - 1)) for _ in ts_events] if ts_spread else []
+    # (two owner tracks, so that consecutive changes alternate between tracks and return to a track)
+    owners = [draw(st.integers(0, nt - 1)), draw(st.integers(0, nt - 1))] if ts_spread else []
+    ts_owner = [owners[draw(st.integers(0, 1))] for _ in ts_events] if ts_spread else []
     tracks = []
     for i in range(nt):
         chan = draw(st.integers(0, 15))
